@@ -360,6 +360,7 @@ def execute(plan):
                             'SetAttribute'):
             probes['attribute_target'] += 1
         # ---- one run per fault --------------------------------------
+        cannot_open = [0]
         for f in flist:
             k, mode = f[0], f[1]
             k2 = f[2] if len(f) > 2 else None
@@ -457,6 +458,12 @@ def execute(plan):
                 w = world.World(plan['actors'], None, workdir=d, reset=False)
             except Exception as e:
                 flag('engine-cannot-open', error=repr(e)[:300])
+                cannot_open[0] += 1
+                if cannot_open[0] >= 2:
+                    # a store that cannot be opened after a crash (it may
+                    # take a lock timeout each time to find out): the
+                    # remaining crash points of this scenario add nothing
+                    break
                 continue
             raw = []
             try:
